@@ -1712,7 +1712,12 @@ class Machine:
         if self.spec and fsrc == "keys_of" and len(e.args) == 1:
             # keys_of(d): the insertion-ordered key sequence of a dict cell (spec only)
             a0 = e.args[0]
-            v = self.env.get(a0.id) if isinstance(a0, ast.Name) and a0.id in self.env else self.eval(a0)
+            if isinstance(a0, ast.Name) and a0.id in self.env:
+                v = self.env.get(a0.id)
+            elif isinstance(a0, ast.Name) and a0.id == "result" and self.result is not None:
+                v = self.result
+            else:
+                v = self.eval(a0)
             if isinstance(v, VHeapRef) and self.ctx.cell(v.addr).kind == "dict":
                 from .maps import dict_keys
                 if self._spec_old_mode:
